@@ -1,5 +1,5 @@
 # C04 — failed or faulted operations are atomic: no leak, no residue, context reusable.
-import os, sys, json
+import os, sys, json, tempfile, shutil, gzip, bz2, lzma, zipfile, io
 from concurrent.futures import ThreadPoolExecutor
 import vcommon as V
 
@@ -32,7 +32,12 @@ def main():
         _, e, s = l.split(); allowed[(e, int(s))] = set((int(x.split(":")[0]), int(x.split(":")[1])) for x in o.split())
     stats = {"files": 0, "experiments": 0, "alloc_fault_runs": 0, "truncation_runs": 0, "by_entry": {}, "outcomes_seen": {}, "loads_surviving_a_failed_allocation": 0}
     if replay:
-        rp = json.load(open(replay)); files = [os.path.join(V.REPO, rp["file"])]; forced = [rp["job"]]
+        rp = json.load(open(replay))
+        if rp.get("file_hex"):
+            crafted = tempfile.mkdtemp(prefix="vp-c04-", dir="/var/tmp"); fp = os.path.join(crafted, rp["file"].split(":", 1)[1]); open(fp, "wb").write(bytes.fromhex(rp["file_hex"]))
+            files = [fp]; forced = [" ".join(rp["job"].split()[:4]) + " " + fp]
+        else:
+            files = [os.path.join(V.REPO, rp["file"])]; forced = [rp["job"]]
     else:
         allf = [f for f in V.corpus_files() if os.path.getsize(f) < (120000 if tier == "quick" else 600000)]
         base = os.path.join(V.REPO, "test-dev", "data")
@@ -43,6 +48,20 @@ def main():
         for f in allf: byext.setdefault(os.path.splitext(f)[1].lower() or os.path.basename(f)[:4].lower(), []).append(f)
         files = sorted(set([rng.choice(v) for v in byext.values()] + rng.sample(allf, min(len(allf), 40 if tier == "quick" else len(allf)))))
         forced = None
+        # crafted inputs for the unpack stage: signatures that call for an external helper (absent here: the "helper fails" outcome) and
+        # containers whose member is empty (a depacker that succeeds with nothing to hand over)
+        crafted = tempfile.mkdtemp(prefix="vp-c04-", dir="/var/tmp")
+        def put(name, blob):
+            p = os.path.join(crafted, name); open(p, "wb").write(blob); files.append(p)
+        put("helper.rar", b"Rar!\x1a\x07\x00" + bytes(range(200)))
+        put("helper.mo3", b"MO3\x05" + bytes(300))
+        zb = io.BytesIO()
+        with zipfile.ZipFile(zb, "w", zipfile.ZIP_STORED) as z: z.writestr("empty.mod", b"")
+        put("empty-stored.zip", zb.getvalue())
+        zb = io.BytesIO()
+        with zipfile.ZipFile(zb, "w", zipfile.ZIP_DEFLATED) as z: z.writestr("empty.mod", b"")
+        put("empty-deflate.zip", zb.getvalue())
+        put("empty.gz", gzip.compress(b"")); put("empty.bz2", bz2.compress(b"")); put("empty.xz", lzma.compress(b"", format=lzma.FORMAT_XZ, check=lzma.CHECK_CRC32))
 
     ref = {}
 
@@ -52,11 +71,12 @@ def main():
         if forced:
             jobs = list(forced)
         else:
-            base = ["%s 0 -1 0 %s" % (e, f) for e in ("LP", "LM", "TP", "SP", "LF", "LC")]
+            base = ["%s 0 -1 0 %s" % (e, f) for e in ("LP", "LM", "TP", "SP", "LF", "LC", "TF")]
             r = V.run([drv, prior], inp="\n".join(base) + "\n", env=env, timeout=600)
             o = [x for x in r.stdout.strip().split("\n") if x]
             if r.returncode != 0 or len(o) < len(base):
                 return [(base[min(len(o), len(base) - 1)], None, r.stderr[-1500:])]
+            out += [(l, parse(x), None) for l, x in zip(base, o)]        # the unfaulted calls are judged too
             jobs = []
             refd = parse(o[0])
             ref[f] = (refd["ret"], refd["digest"])          # what a normal load of this file on a fresh context gives
@@ -90,21 +110,23 @@ def main():
         results = list(ex.map(one, files))
     for f, res in zip(files, results):
         stats["files"] += 1
-        rel = os.path.relpath(f, V.REPO)
+        rel = os.path.relpath(f, V.REPO) if f.startswith(V.REPO) else "crafted:" + os.path.basename(f)
         for (job, d, err) in res:
             e, k, cut, pr = job.split()[:4]; k = int(k); cut = int(cut); pr = int(pr)
             ck.count(); stats["experiments"] += 1; stats["by_entry"][e] = stats["by_entry"].get(e, 0) + 1
             if k: stats["alloc_fault_runs"] += 1
             if cut >= 0: stats["truncation_runs"] += 1
             rep = {"file": rel, "job": job, "entry": e, "fail_allocation": k, "cut": cut, "earlier_module_loaded": pr}
+            if rel.startswith("crafted:") and os.path.exists(f): rep["file_hex"] = open(f, "rb").read().hex()
             if d is None:
                 site = next((l.split(" in ", 1)[1].split()[0] for l in (err or "").split("\n") if l.strip().startswith("#") and "/repo/src" in l), "?")
                 ck.violation(dict(rep, what="sanitizer report / crash under the fault", stderr=err, broken="C04: the call must return an error code"), key="c04:crash:" + site); continue
-            prior_state = 1 if (pr or e == "SP") else 0
+            prior_state = 1 if pr else 0
+            if e == "SP": prior_state = 1 if (ref.get(f, (0,))[0] == 0) else 0      # start_player on a context whose load failed: state error
             stats["outcomes_seen"]["%s %d:%d" % (e, d["ret"], d["state"])] = stats["outcomes_seen"].get("%s %d:%d" % (e, d["ret"], d["state"]), 0) + 1
             bad = None
             okset = allowed[(e, prior_state)]
-            ret_class = d["ret"] if e != "SP" or d["ret"] >= 0 else -2          # start_player reports -2 or -6 for a failed allocation
+            ret_class = -2 if (e == "SP" and d["ret"] == -6) else d["ret"]          # start_player reports -2 or -6 for a failed allocation
             if (ret_class, d["state"]) not in okset: bad = "return code %d with context state %d is not an outcome the model allows from state %d: %s" % (d["ret"], d["state"], prior_state, sorted(okset))
             elif d["fd0"] != d["fd1"]: bad = "open descriptors %d -> %d" % (d["fd0"], d["fd1"])
             elif d["temps"]: bad = "%d temporary file(s) left behind" % d["temps"]
@@ -125,9 +147,10 @@ def main():
                 ck.violation(dict(rep, what=bad, observed=d, broken="C04 clause on the implementation / outcome outside Model/Cleanup.v"), key="c04:%s:%s" % (e, bad.split()[0]))
             else:
                 ck.nontrivial((rel, job))
+    shutil.rmtree(crafted, ignore_errors=True) if 'crafted' in dir() else None
     # reference: every file must load normally (k = 0) for "reusable" to be meaningful; files that do not are only checked for leaks
     ck.engine_stat("cleanup", **stats)
-    ck.cov["rule"] = ("one corpus file per file-name extension (every loader and depacker family) plus a random sample; per file and per entry point (4 loads, 4 tests, start_player): the k-th allocator call fails for every k up to 40 (thorough: 400) and a sample beyond, "
+    ck.cov["rule"] = ("one corpus file per file-name extension (every loader and depacker family) plus a random sample, plus crafted inputs for the unpack stage (Rar / MO3 signatures with the helper absent, archives whose member is empty); per file and per entry point (4 loads, 4 tests, start_player): the k-th allocator call fails for every k up to 40 (thorough: 400) and a sample beyond, "
                       "streams cut at 0..4 bytes, the middle, the last byte and random lengths (memory, FILE, callbacks), with and without an earlier module loaded; after every faulted call: (return code, context state) must be an outcome of the extracted model, "
                       "open descriptors, temporary files and live allocations are counted (malloc/calloc/realloc/free/mkstemp wrapped), the caller's FILE must be usable, the close callback must have run exactly once, "
                       "and the same context must then load the file and render 3 frames; live allocations after xmp_free_context must be 0")
